@@ -61,6 +61,15 @@ CLAIMED = {
             "Exhaustive over the enumerated family only (<= 19 types in one environment); cells the statement leaves open (required shortcut "
             "without a matching key, keys matching several shortcuts with disagreeing entries, integers under additionalProperties float, "
             "non-empty containers for or-member object/array) derive no verdict.", "3/C03"),
+    "C04": ("TLA+ requirement Sem!Verdict applied to a schema's own example (ExampleOf); TLC enumerates obeying schemas and single-rule "
+            "corruptions in container / added-type contexts and proves the obey/violate classification; replay through Check, Validate and Position",
+            "For every generated schema whose example obeys its rules: if the real Check succeeds the real Validate must accept the schema's "
+            "own example text. For every single-rule corruption (bounds, exclusive bounds, precision, lengths, regex, formats, enum incl. "
+            "same-text-other-kind, declared type, or without matching alternative, type reference of another kind, item counts) placed at the "
+            "root, in properties, array positions, objects with additionalProperties, and inside added user types: Check must fail and report "
+            "the offset of the corrupted value (type-local offset for values inside a type).",
+            "Exhaustive over the enumerated rule families and 15 contexts only; Check rejecting an obeying schema is counted, not judged "
+            "(that is C08's matrix).", "3/C04"),
 }
 
 PENDING_REASON = "check under construction in this session - not claimed yet (no technique switch intended; see DESIGN.md section 3)"
